@@ -238,6 +238,40 @@ def multi_case(rng):
             'con_scaler': rng.choice([None, None, sc(len(blocks[0]))]), 'ds': rng.random() < 0.3}
 
 
+def resetup_case(rng):
+    """2-4 configurations of one n x n jacobian with the same shape: diagonal, banded, arrow-head, permuted,
+    random -- sparsity growing, shrinking and permuting between the setups of one Problem"""
+    n = rng.randrange(3, 9)
+    v = lambda: rng.randrange(1, 10)
+
+    def diag():
+        return [[v() if r == c else 0 for c in range(n)] for r in range(n)]
+
+    def band(w):
+        return [[v() if abs(r - c) <= w else 0 for c in range(n)] for r in range(n)]
+
+    def arrow():
+        k = rng.randrange(n)
+        return [[v() if (r == c or r == k or c == k) else 0 for c in range(n)] for r in range(n)]
+
+    def perm():
+        p = list(range(n))
+        rng.shuffle(p)
+        return [[v() if c == p[r] else 0 for c in range(n)] for r in range(n)]
+
+    def rnd():
+        d = rng.choice([0.15, 0.3, 0.5])
+        return [[v() if (r == c or rng.random() < d) else 0 for c in range(n)] for r in range(n)]
+    makers = [diag, lambda: band(1), lambda: band(2), arrow, perm, rnd]
+    mats = [rng.choice(makers)() for _ in range(rng.randrange(2, 5))]
+    if rng.random() < 0.5:
+        mats[0] = diag()                      # cheap first colouring, richer sparsity afterwards
+    sc = lambda m: [rng.choice([1, 2, 4, 0.5]) for _ in range(m)]
+    return {'kind': 'totals_resetup', 'mats': mats, 'mode': rng.choice([None, 'fwd', 'rev', 'auto']),
+            'direct': rng.random() < 0.5, 'con_scaler': rng.choice([None, None, sc(n - 1)]),
+            'ds': rng.random() < 0.3}
+
+
 class C03(Spec):
     pid = 'C03'
     imports = ['C03.Model']
@@ -259,7 +293,8 @@ class C03(Spec):
             'built-in colouring and declare_coloring on cs/fd partials with the sparsity sampled at a degenerate point '
             '(inputs exactly 0, vanishing derivatives) and re-linearised elsewhere, vs the uncoloured twin; arrow-head '
             'totals split over several response components sharing one design variable with the problem mode left at '
-            'its default (bidirectional driver colouring, fwd and rev solves in one compute_totals); a case is '
+            'its default (bidirectional driver colouring, fwd and rev solves in one compute_totals); histories of 2-4 '
+            'setups of the same Problem with the component sparsity changed in between (same names and sizes); a case is '
             'non-trivial when distinct')
     assumptions = ['the linear solves that produce the compressed products are replaced by exact matrix products '
                    '(M @ seed); their correctness is property C01',
@@ -301,6 +336,8 @@ class C03(Spec):
             cases.append(nlcomp_case(rng))
         for _ in range(50 if quick else 400):
             cases.append(multi_case(rng))
+        for _ in range(40 if quick else 300):
+            cases.append(resetup_case(rng))
         return cases
 
     def search_gen(self, tier, rng):
